@@ -113,7 +113,7 @@ pub fn dir_path(pool: &Pool, root: &Path, comps: &Value) -> PathBuf {
     let mut p = root.join("links");
     for c in comps.as_array().unwrap() {
         let id = keyid_of(pool, &c[1]);
-        p = p.join(format!("{}.{}", c[0].as_str().unwrap(), &id[0..8]));
+        p = p.join(format!("{}.{}{}", c[0].as_str().unwrap(), &id[0..8], c.get(2).and_then(|x| x.as_str()).unwrap_or("")));
     }
     p
 }
@@ -129,6 +129,12 @@ fn summarize(mb: &Metablock) -> Value {
 }
 
 pub fn run(pool: &Pool, sc: &Value) -> Value {
+    pool.set_same_material(&sc["layout"]["layout"]["same_material"]);
+    let r = run_inner(pool, sc);
+    pool.set_same_material(&Value::Null);
+    r
+}
+fn run_inner(pool: &Pool, sc: &Value) -> Value {
     let now = chrono::Utc::now();
     let now_secs = sc["now_secs"].as_i64().unwrap();
     let root = std::env::temp_dir().join(format!("verif-verify-{}-{}", std::process::id(), now.timestamp_nanos_opt().unwrap_or(0)));
